@@ -556,7 +556,7 @@ def loader_program(ch: Chooser):
 
 
 # ------------------------------------------------------------------------------ claimed domain
-def in_claimed_domain(stmts) -> bool:
+def in_claimed_domain(stmts, lit_decls_const: bool = False) -> bool:
     """True if no constant-only sub-expression of the program leaves the domain where the
     compiler's folders and the 32-bit run-time arithmetic agree (C11 is not claimed).  The
     generators only build such programs; the structural shrinker must not leave the domain either,
@@ -643,6 +643,10 @@ def in_claimed_domain(stmts) -> bool:
                 # `Signal a = 5;` / `Signal a = ("t", 5);` declare circuit inputs: the compiler
                 # never folds through them
                 declared_input = s_[1] == "Signal" and s_[3][0] in ("lit", "siglit", "siglitt")
+                if lit_decls_const and s_[3][0] == "lit":
+                    # an inlined twin: `Signal x = 3;` stands for a literal ARGUMENT of the call
+                    # build, where everything computed from it is folded
+                    declared_input = False
                 if v is not None and not declared_input:
                     consts[s_[2]] = v
             elif s_[0] == "for":
